@@ -22,6 +22,7 @@ Definition run_model (m : Z) (params : list Z) (rows : list (list Z)) : list (li
   | 21%Z => run_boxed params rows
   | 103%Z => run_ffi params rows
   | 110%Z => run_carc_threads params rows
+  | 210%Z => run_carc_calls params rows
   | 106%Z => run_life params rows
   | 108%Z => run_casts params rows
   | 117%Z => run_bindgen_cpp params rows
